@@ -96,6 +96,10 @@ class Ledger(Core.Component):
     __hash__ = None
 
 
+# a user's own component type that happens to be called PositionComponent (a plain Component, nothing to do with the worlds)
+NamedLikePosition = type('PositionComponent', (Core.Component,), {'__doc__': 'user type named like the bundled one'})
+
+
 class Bag(Core.Agent):
     """An agent class with its own notion of length (e.g. the number of items it carries): here always 0."""
 
@@ -282,9 +286,9 @@ def scale_case(case):
     if mk is not None:
         m.environment = mk(m)
     env = m.environment
-    types = {'X': X, 'Y': Y, 'P2': P2, 'F': F, 'W': Water, 'S': Stock, 'L': Ledger}
+    types = {'X': X, 'Y': Y, 'P2': P2, 'F': F, 'W': Water, 'S': Stock, 'L': Ledger, 'N': NamedLikePosition}
     carries = {'X': lambda i: True, 'Y': lambda i: i % 2, 'P2': lambda i: i % 3 == 0, 'F': lambda i: i % 4 == 1,
-               'W': lambda i: i % 4 == 2, 'S': lambda i: i % 3 == 1, 'L': lambda i: i % 5 == 0}
+               'W': lambda i: i % 4 == 2, 'S': lambda i: i % 3 == 1, 'L': lambda i: i % 5 == 0, 'N': lambda i: i % 4 == 3}
     agents, comps = [], {}
     stocks = []
     for i in range(n):
@@ -330,6 +334,33 @@ def scale_case(case):
         res.append(i)
         steps += 1
     check('after all joined')
+    if mk is not None and not case.get('quiet'):
+        # an agent that already carries a position component of its own asks to join the spatial world: whether the world
+        # takes it or refuses it (with whatever error), its components are listed exactly if it is resident afterwards
+        intr = Core.Agent('intruder', m)
+        cx = X(intr, m)
+        intr.add_component(cx)
+        intr.add_component(Envs.PositionComponent(intr, m, 0, 0, 0))
+        try:
+            env.add_agent(intr, *pos)
+        except Exception:      # noqa - refused
+            pass
+        resident = env.get_agent('intruder') is intr
+        listed = any(c is cx for c in (m.systems[X] or []))
+        if resident != listed:
+            raise Violation(f'an agent carrying its own PositionComponent asked to join the {kind} world: afterwards it is '
+                            f'{"resident" if resident else "not resident"} but its X component is {"listed" if listed else "not listed"}',
+                            expected=resident, observed=listed)
+        if resident:
+            try:
+                env.remove_agent('intruder')
+            except Exception:      # noqa
+                pass
+            if env.get_agent('intruder') is None and any(c is cx for c in (m.systems[X] or [])):
+                raise Violation(f'the intruder left the {kind} world but its X component is still listed')
+            if env.get_agent('intruder') is intr:
+                res.append('intruder-stuck')       # (a known-finding path: leave it out of the rest of this case)
+                return steps, (kind, n, 'intruder stuck')
     if case.get('quiet'):
         # nobody looks at the listings while the victims leave (all of them, in order) and come back (in order): one
         # read before, one read after
